@@ -1,12 +1,25 @@
 -------------------------- MODULE RingBufferTrace --------------------------
 (* E2: validates executions recorded from the real ring buffer against RingBuffer.tla *)
-EXTENDS RingBuffer, Json, IOUtils
+EXTENDS RingBuffer, Json, IOUtils, SequencesExt
 TraceLog == ndJsonDeserialize(IOEnv.TRACE)
 VARIABLE l
 e == TraceLog[l]
 TInit == Init /\ l = 1
 Restart == cap' = 0 /\ ty' = 0 /\ head' = 0 /\ tail' = 0 /\ data' = <<>> /\ ovr' = FALSE /\ q' = <<>> /\ ev' = Boot
+(* fill k base: k puts of the values (base + i) % 251, i = 0..k-1, done inside the harness (rings of more than 2^16 elements),
+   observed once at the end.  Only used where all k elements still fit, so that it is the k-fold Put in closed form. *)
+FillAct(k, base) ==
+    LET val(i) == (base + i) % 251                                   \* i-th value, 0-based
+        off(p) == (p - 1 - head + cap) % cap                         \* 1-based slot p is the off(p)-th slot written
+    IN /\ cap > 0 /\ Len(q) + k <= cap /\ k > 0
+       /\ q' = q \o [i \in 1..k |-> val(i - 1)]
+       /\ head' = (head + k) % cap
+       /\ tail' = IF tail = cap THEN head ELSE tail
+       /\ data' = [p \in 1..cap |-> IF off(p) < k THEN val(off(p)) ELSE data[p]]
+       /\ UNCHANGED <<cap, ty, ovr>>
+       /\ ev' = Ev("fill", <<k, base>>, Obs(0, q', cap))
 Step == CASE e.op = "@" -> Restart
+          [] e.op = "fill" -> FillAct(e.a[1], e.a[2])
           [] e.op = "init" -> RInit(e.a[1], e.a[2])
           [] e.op = "put" -> Put(e.a[1])
           [] e.op = "get" -> Get
